@@ -141,9 +141,9 @@ enqueued: PUB/DPUB the message, MPUB all messages, a failed MPUB the prefix that
 the failing write; other topics are untouched. -/
 theorem topic_bytes (s : State) (t : Nat) {tp : Topic} (hf : findT s.topics t = some tp)
     (op : Nsq.Model.ChanNsqd.Op) (nb nc : Nat)
-    (hop : (∃ sz, op = .pub t sz ∧ nb = sz ∧ nc = 1) ∨ (∃ sz d, op = .dpub t sz d ∧ nb = sz ∧ nc = 1) ∨
-           (∃ sizes, op = .mpub t sizes ∧ nb = sizes.sum ∧ nc = sizes.length) ∨
-           (∃ sizes j, op = .mpubFail t sizes j ∧ j < sizes.length ∧ nb = (sizes.take j).sum ∧ nc = j)) :
+    (hop : (∃ sz e, op = .pub t sz e ∧ nb = sz ∧ nc = 1) ∨ (∃ sz d e, op = .dpub t sz d e ∧ nb = sz ∧ nc = 1) ∨
+           (∃ sizes es, op = .mpub t sizes es ∧ nb = sizes.sum ∧ nc = sizes.length) ∨
+           (∃ sizes j es, op = .mpubFail t sizes j es ∧ j < sizes.length ∧ nb = (sizes.take j).sum ∧ nc = j)) :
     ∀ y' ∈ (Nsq.Model.ChanNsqd.step s op).1.topics, ∃ y ∈ s.topics, y'.tid = y.tid ∧
       (y.tid = t → y'.msgBytes = y.msgBytes + nb ∧ y'.msgCount = y.msgCount + nc) ∧ (y.tid ≠ t → y' = y) := by
   have hens : ensureTopic s t = s := by simp [ensureTopic, hf]
@@ -158,18 +158,18 @@ theorem topic_bytes (s : State) (t : Nat) {tp : Topic} (hf : findT s.topics t = 
       exact ⟨hk ▸ (hfz z).1, fun _ => (hfz z).2, fun h => absurd rfl h⟩
     · rw [if_neg hk]
       exact ⟨rfl, fun h => absurd h hk, fun _ => rfl⟩
-  rcases hop with ⟨sz, rfl, rfl, rfl⟩ | ⟨sz, d, rfl, rfl, rfl⟩ | ⟨sizes, rfl, rfl, rfl⟩ | ⟨sizes, j, rfl, hj, rfl, hnc⟩
+  rcases hop with ⟨sz, e, rfl, rfl, rfl⟩ | ⟨sz, d, e, rfl, rfl, rfl⟩ | ⟨sizes, es, rfl, rfl, rfl⟩ | ⟨sizes, j, es, rfl, hj, rfl, hnc⟩
   · simp only [Nsq.Model.ChanNsqd.step, hens]
-    exact key _ (fun z => by obtain ⟨q, hq, _⟩ := putT_spec z s.nextId nb 0; simp [hq])
+    exact key _ (fun z => by obtain ⟨q, hq, _⟩ := putT_spec z s.nextId nb 0 e; simp [hq])
   · simp only [Nsq.Model.ChanNsqd.step, hens]
-    exact key _ (fun z => by obtain ⟨q, hq, _⟩ := putT_spec z s.nextId nb d; simp [hq])
+    exact key _ (fun z => by obtain ⟨q, hq, _⟩ := putT_spec z s.nextId nb d e; simp [hq])
   · simp only [Nsq.Model.ChanNsqd.step, hens]
-    exact key _ (fun z => by obtain ⟨q, hq, _⟩ := putMany_spec z s.nextId sizes; simp [hq])
+    exact key _ (fun z => by obtain ⟨q, el, hq, _⟩ := putMany_spec z s.nextId sizes es; simp [hq])
   · subst hnc
     have hj' : ¬ nc ≥ sizes.length := by omega
     simp only [Nsq.Model.ChanNsqd.step, hens]
     rw [if_neg hj']
-    exact key _ (fun z => by obtain ⟨q, hq, _⟩ := putMany_spec z s.nextId (sizes.take nc); simp [hq])
+    exact key _ (fun z => by obtain ⟨q, el, hq, _⟩ := putMany_spec z s.nextId (sizes.take nc) es; simp [hq])
 
 /-- C13.5 `render_agree` — the JSON and the text rendering, under every topic / channel /
 include_clients filter, are projections of one snapshot: every row they show is (the projection
